@@ -6,6 +6,7 @@ import RsyncModel.Driver.GenOps
 import RsyncModel.Driver.DeleteOps
 import RsyncModel.Driver.FlistOps
 import RsyncModel.Driver.WireOps
+import RsyncModel.Driver.OptsOps
 open Driver
 
 def dispatch (line : String) : String :=
@@ -21,6 +22,7 @@ def dispatch (line : String) : String :=
     else if op == "delete" || op == "find" || op == "utf8" || op == "filter" then deleteOp fs
     else if op == "gen" || op == "genrecv" then genOp fs
     else if ["sum1", "md4", "sumsizes", "gensums", "search", "recvdata"].contains op then deltaOp fs
+    else if op == "optparse" || op == "serveropts" || op == "dispatch" then optsOp fs
     else "bad-op"
 
 partial def loop (h : IO.FS.Stream) (out : IO.FS.Stream) : IO Unit := do
